@@ -1142,14 +1142,44 @@ type fixedGatherer struct {
 
 func (g fixedGatherer) Gather() ([]*dto.MetricFamily, error) { return g.mfs, g.err }
 
+// txGatherer is a strict TransactionalGatherer: the families it hands out are private deep copies
+// that are only valid until done() is called.  done() overwrites them in place (names, help, type,
+// every label and value, metrics dropped) and replaces the slice elements, like a cache that is
+// refreshed in place once the transaction is over; any use of the families after done() therefore
+// changes the helper's verdict.  dones counts the calls (must be exactly one).
 type txGatherer struct {
-	mfs   []*dto.MetricFamily
-	err   error
-	dones *int
+	mfs    []*dto.MetricFamily
+	err    error
+	dones  *int
+	shared bool // serve mfs itself (a snapshot shared by all calls) instead of strict private copies
 }
 
 func (g txGatherer) Gather() ([]*dto.MetricFamily, func(), error) {
-	return g.mfs, func() { *g.dones++ }, g.err
+	if g.shared {
+		return g.mfs, func() { *g.dones++ }, g.err
+	}
+	var out []*dto.MetricFamily
+	if g.mfs != nil {
+		out = make([]*dto.MetricFamily, len(g.mfs))
+		for i, mf := range g.mfs {
+			out[i] = proto.Clone(mf).(*dto.MetricFamily)
+		}
+	}
+	handed := append([]*dto.MetricFamily(nil), out...)
+	return out, func() {
+		*g.dones++
+		for i, mf := range handed {
+			mf.Name = proto.String(fmt.Sprintf("released_after_done_%d", i))
+			mf.Help = proto.String("this family was used after done()")
+			mf.Type = dto.MetricType_UNTYPED.Enum()
+			mf.Metric = []*dto.Metric{{Label: []*dto.LabelPair{{Name: proto.String("released"), Value: proto.String("yes")}},
+				Untyped: &dto.Untyped{Value: proto.Float64(-12345.678)}}}
+			if i < len(out) {
+				out[i] = &dto.MetricFamily{Name: proto.String(fmt.Sprintf("released_slot_%d", i)), Help: proto.String(""),
+					Type: dto.MetricType_GAUGE.Enum(), Metric: []*dto.Metric{{Gauge: &dto.Gauge{Value: proto.Float64(float64(i))}}}}
+			}
+		}
+	}, g.err
 }
 
 type scrapeServer struct {
@@ -1176,6 +1206,7 @@ func newScrapeServer() *scrapeServer {
 // ---------------------------------------------------------------- the compare stream
 
 type world struct {
+	calls   int
 	skipped []string
 	r       *emit.Rng
 	srv     *scrapeServer
@@ -1230,12 +1261,19 @@ func newRegCtx(rs regSpec, r *emit.Rng) (*regCtx, error) {
 func (w *world) runHelper(helper int, c *regCtx, expected string, names []string) error {
 	switch helper {
 	case 0:
+		w.calls++
+		if w.calls%3 == 0 { // a Gatherer that serves the same prebuilt snapshot (same backing slice) on every call
+			return testutil.GatherAndCompare(fixedGatherer{mfs: c.got}, strings.NewReader(expected), names...)
+		}
 		return testutil.GatherAndCompare(c.reg, strings.NewReader(expected), names...)
 	case 1:
 		return testutil.CollectAndCompare(c.coll, strings.NewReader(expected), names...)
 	case 2:
 		dones := 0
-		err := testutil.TransactionalGatherAndCompare(txGatherer{mfs: c.got, dones: &dones}, strings.NewReader(expected), names...)
+		w.calls++
+		// alternately: strict transaction (private copies, wiped by done()) and a caching gatherer that
+		// serves the same snapshot slice on every call (must not be modified by the helper)
+		err := testutil.TransactionalGatherAndCompare(txGatherer{mfs: c.got, dones: &dones, shared: w.calls%2 == 0}, strings.NewReader(expected), names...)
 		if dones != 1 {
 			w.direct = append(w.direct, map[string]interface{}{"index": -1, "what": fmt.Sprintf("TransactionalGatherAndCompare called done() %d times", dones)})
 		}
@@ -1463,7 +1501,7 @@ func (w *world) malformedStream(dir string, scale int, regs []*regCtx) error {
 			add(0, emit.Tup("0", "1", "0", "200"), emit.None(), classify(testutil.GatherAndCompare(fixedGatherer{nil, gerr}, strings.NewReader(c.text0), names...)), "pre:gatherer-error")
 		case 2:
 			dones := 0
-			cls := classify(testutil.TransactionalGatherAndCompare(txGatherer{c.got, gerr, &dones}, strings.NewReader(c.text0), names...))
+			cls := classify(testutil.TransactionalGatherAndCompare(txGatherer{mfs: c.got, err: gerr, dones: &dones, shared: i%16 == 2}, strings.NewReader(c.text0), names...))
 			if dones != 1 {
 				w.direct = append(w.direct, map[string]interface{}{"index": out.Len(), "what": fmt.Sprintf("done() called %d times on a failed gather", dones)})
 			}
